@@ -513,19 +513,17 @@ impl<'a> RefVm<'a> {
             Op::Shl => {
                 let x = self.pop_int()?;
                 let y = self.pop_int()?;
-                if y >= BigUint::from(256u32) {
-                    return Err(StepErr::Ood("shift>=256"));
-                }
-                let s = y.to_u32_digits().first().copied().unwrap_or(0);
+                // the shift amount is itself a 256-bit word; only its position within the word width counts
+                // (amount mod 256), see DESIGN 5.6
+                let s = y.to_u32_digits().first().copied().unwrap_or(0) % 256;
                 self.stack.push(RV::Int((x << s) % &m));
             }
             Op::Shr => {
                 let x = self.pop_int()?;
                 let y = self.pop_int()?;
-                if y >= BigUint::from(256u32) {
-                    return Err(StepErr::Ood("shift>=256"));
-                }
-                let s = y.to_u32_digits().first().copied().unwrap_or(0);
+                // the shift amount is itself a 256-bit word; only its position within the word width counts
+                // (amount mod 256), see DESIGN 5.6
+                let s = y.to_u32_digits().first().copied().unwrap_or(0) % 256;
                 self.stack.push(RV::Int(x >> s));
             }
             Op::Hash(n) => {
